@@ -502,6 +502,9 @@ Theo::MacroApplicationResult Theo::apply_macros(
   bool changed = false;
   for (unsigned int pass = 0; pass < passes; pass++) {
     changed = false;
+#ifdef THEO_VERIF
+    verif_macro_passes.fetch_add(1, std::memory_order_relaxed);
+#endif
 
     for (auto p = prios.rbegin(); p != prios.rend(); p++) {
       auto detectors = p->second;
@@ -564,3 +567,7 @@ std::string Theo::recover_from_tokens(const std::vector<Token> &tok) {
   }
   return out;
 }
+
+#ifdef THEO_VERIF
+std::atomic<unsigned long> Theo::verif_macro_passes{0};
+#endif
